@@ -32,6 +32,8 @@ def gen(rng, kind):
     ops = []
     for i in range(rng.randint(3, 10)):
         op = rng.choice([1, 2, 3]) if i else rng.choice([1, 3, 2])      # a history may begin with a transform (unfitted estimator)
+        if kind == "landscaper" and rng.random() < 0.15:
+            op = 4                                                      # set_params(num_steps=<its current value>)
         ops.append([op, rng.randrange(nds)])
     return sets, ops
 
@@ -124,7 +126,7 @@ def spec_items(ctx, quick):
     set of every step are read off the state variables and the history is replayed on a real estimator"""
     rng = ctx.rng
     items = []
-    OP = {"fit": 1, "transform": 2, "fit_transform": 3}
+    OP = {"fit": 1, "transform": 2, "fit_transform": 3, "set_params": 4}
     r, behaviours = tlc.simulate_behaviours("Transformers", dict(MaxLen=6, FitKeepsFirst=False), 150 if quick else 4000, 7, ctx.seed + 5,
                                             invariants=["RefitForgets", "FitTransformIsFitThenTransform", "TransformUsesLastFit"])
     ctx.model("Transformers random behaviours (simulation mode)", r)
@@ -132,6 +134,8 @@ def spec_items(ctx, quick):
     for t, states in enumerate(behaviours):
         ops = []
         for st in states[1:]:
+            if st["lastOp"] == "set_params":
+                ops.append([4, 0]); continue
             X = st["lastFit"] if st["lastOp"] in ("fit", "fit_transform") else st["out"][2]
             ops.append([OP[st["lastOp"]], DATA.index(list(X))])
         if not ops:
@@ -193,7 +197,7 @@ def run(ctx):
     quick = ctx.tier == "quick"
     ctx.rule = RULE
     r = tlc.run_tlc("Transformers", workers=8, constants=dict(MaxLen=4 if quick else 6, FitKeepsFirst=False),
-                    invariants=["RefitForgets", "FitTransformIsFitThenTransform", "TransformUsesLastFit"], properties=["TransformKeepsState"], heap="4g")
+                    invariants=["RefitForgets", "FitTransformIsFitThenTransform", "TransformUsesLastFit"], properties=["TransformKeepsState", "SetParamsKeepsState"], heap="4g")
     ctx.model("Transformers (intended / repaired landscaper)", r)
     r = tlc.run_tlc("Transformers", workers=4, constants=dict(MaxLen=3, FitKeepsFirst=True), invariants=["RefitForgets"], heap="2g")
     ctx.model("Transformers with keep-first fit (pre-repair; expected to fail RefitForgets)", r, expect_violation="RefitForgets")
